@@ -334,25 +334,14 @@ func genContents(t *rapid.T, c *BuildCase, o contentOpts) {
 					e.Dst = spell(clean, false)
 				}
 			case "dir", "dirslash", "flat":
-				dirAtRoot := form != "flat" && rapid.IntRange(0, 7).Draw(t, lbl+".diratroot") == 0
-				if dirAtRoot {
-					// a directory source copied to "/": the files land below one top-level directory of their own
-					c.Tree = append(c.Tree, FNode{Rel: udir, Kind: "dir", Mode: 0o755, MTime: genMTime(t, lbl+".rootmtime")})
-					u := genUnit(t, fmt.Sprintf("%s/RootDir%d", udir, i), lbl+".u", 1, 5, true, false, allowMeta)
-					c.Tree = append(c.Tree, u.nodes...)
-				} else {
-					u := genUnit(t, udir, lbl+".u", 1, 5, form != "flat", false, allowMeta)
-					c.Tree = append(c.Tree, u.nodes...)
-				}
+				u := genUnit(t, udir, lbl+".u", 1, 5, form != "flat", false, allowMeta)
+				c.Tree = append(c.Tree, u.nodes...)
 				e.Src = udir
 				e.Form = "dir"
 				if form == "dirslash" {
 					e.Src = udir + "/"
 				}
 				e.Dst = spell(clean, false)
-				if dirAtRoot {
-					e.Dst = rapid.SampledFrom([]string{"/", "/", "//", "/."}).Draw(t, lbl+".rootspelling")
-				}
 				if form == "flat" {
 					e.Dst = clean + "/"
 					e.Form = "flat"
@@ -433,7 +422,7 @@ func genContents(t *rapid.T, c *BuildCase, o contentOpts) {
 			if rapid.Bool().Draw(t, lbl+".srcslash") {
 				e.Src += "/"
 			}
-			e.FI = genFileInfo(t, lbl+".fi", false)
+			e.FI = genFileInfo(t, lbl+".fi", true)
 			e.Dst = spell(clean, true)
 			if atRoot {
 				e.Dst = rapid.SampledFrom([]string{"/", "/", "//", "/.", "/./"}).Draw(t, lbl+".rootspelling")
